@@ -244,7 +244,12 @@ func (c *ServerChannel) EstablishSession(
 			negEncryptOpts = append(negEncryptOpts, v.(SessionEncryption))
 		}
 
-		if len(negCompOpts) > 1 || len(negEncryptOpts) > 1 {
+		// Negotiate when there is a choice to make, and also when the only acceptable option is not
+		// the one currently in force on the transport (e.g. EncryptOpts = [tls] on a cleartext
+		// connection): otherwise the client would be authenticated without the configured option.
+		if len(negCompOpts) > 1 || len(negEncryptOpts) > 1 ||
+			(len(negCompOpts) == 1 && negCompOpts[0] != c.transport.Compression()) ||
+			(len(negEncryptOpts) == 1 && negEncryptOpts[0] != c.transport.Encryption()) {
 			// Negotiate the session options
 			if err = c.negotiateSession(ctx, negCompOpts, negEncryptOpts); err != nil {
 				return err
